@@ -9,6 +9,7 @@ import (
 	"fmt"
 	"os"
 	"path/filepath"
+	"runtime/debug"
 	"sort"
 	"strings"
 	"syscall"
@@ -167,6 +168,7 @@ func runUfs(c *Case, res *result) (err error) {
 			}
 		}
 	}()
+	defer debug.SetGCPercent(debug.SetGCPercent(-1))
 	k := newCtl()
 	uninstall := k.install()
 	defer uninstall()
@@ -455,9 +457,11 @@ func runUfs(c *Case, res *result) (err error) {
 		}
 	}
 
-	// ---- the descriptor oracle
-	var fds []string
-	if !waitFor(quiesce, func() bool { fds = fdsInto(root); return len(fds) == 0 }) {
+	// ---- the descriptor oracle. Everything that served the victim has ended,
+	// so every FidDestroy has been made: one look, no polling (and no garbage
+	// collection during the case: a finalizer closing a forgotten os.File
+	// would hide the leak).
+	if fds := fdsInto(root); len(fds) != 0 {
 		msg := fmt.Sprintf("ufs: the victim is gone but %d descriptor(s) still point into the exported tree: %v (open before the cut: %d; requests executing at the cut: %d)", len(fds), fds, res.openFds, res.effective)
 		if hx.IsKnown(FindCloseVsInflight) && res.effective > 0 && len(fds) <= res.effective {
 			hx.Known(FindCloseVsInflight, msg)
